@@ -8,6 +8,8 @@ EXTENDS Assignment, Json
 CONSTANTS MaxSteps, DEV_StaticRegistersCenter,
           DEV_ReassignKeepsOld,      \* a repeated assignment only adds registry entries (stale ones of a moved obstacle stay)
           DEV_RemoveNeedsLanelets,   \* remove_obstacle looks up every recorded lanelet and fails if one is gone
+          DEV_NetMoveKeepsIndex,     \* LaneletNetwork.translate_rotate leaves the spatial index at the old place: a later
+                                     \* assignment looks the lanelets up where they were
           DEV_ForgetsCentre          \* re-assignment / removal drop only the registrations the recorded SHAPE relation names
                                      \* (registrations made by an assignment by centre only stay behind)
 
@@ -24,32 +26,36 @@ VARIABLES present, rel, regS, regD, failed, steps, act,
           moved,     \* obstacles that were moved by Shift (obstacle-level translate_rotate) since they were built
           gone,      \* lanelets removed from the network
           crel,      \* recorded CENTRE relation per time step (every assignment records it)
-          cmode      \* obstacles whose registrations follow the centre relation (last assigned with use_center_only)
-vars == <<present, rel, regS, regD, failed, steps, act, moved, gone, crel, cmode>>
+          cmode,     \* obstacles whose registrations follow the centre relation (last assigned with use_center_only)
+          netmoved   \* the lanelet network was moved by NetShift (LaneletNetwork.translate_rotate)
+vars == <<present, rel, regS, regD, failed, steps, act, moved, gone, crel, cmode, netmoved>>
+NetShift == <<2, 0>>                                 \* lanelet boxes are in plain units: two units to the right
+ShiftBox(b) == <<b[1] + NetShift[1], b[2] + NetShift[2], b[3] + NetShift[1], b[4] + NetShift[2]>>
 Shift == <<4, 0>>                                   \* doubled coordinates: two units to the right
 Movable == {11, 13}
 ShiftOb(o) == [o EXCEPT !.poses = [i \in DOMAIN @ |-> <<@[i][1] + Shift[1], @[i][2] + Shift[2], @[i][3]>>]]
 (* the CURRENT world: remaining lanelets, obstacles at their current poses *)
-W == [L |-> DOMAIN Lan \ gone, lan |-> Lan, O |-> DOMAIN Obs, ob |-> [o \in DOMAIN Obs |-> IF o \in moved THEN ShiftOb(Obs[o]) ELSE Obs[o]]]
+W == [L |-> DOMAIN Lan \ gone, lan |-> [l \in DOMAIN Lan |-> IF netmoved THEN ShiftBox(Lan[l]) ELSE Lan[l]], O |-> DOMAIN Obs, ob |-> [o \in DOMAIN Obs |-> IF o \in moved THEN ShiftOb(Obs[o]) ELSE Obs[o]]]
 (* rel[o]: "none" or the recorded shape relation per time step; regS[l] set of static ids; regD[l] set of <<t, o>> *)
 NoRel == [t \in {} |-> {}]
 Init == /\ present = {} /\ rel = [o \in W0.O |-> NoRel] /\ regS = [l \in W0.L |-> {}] /\ regD = [l \in W0.L |-> {}]
         /\ failed = FALSE /\ steps = 0 /\ act = <<"init", 0>> /\ moved = {} /\ gone = {}
-        /\ crel = [o \in W0.O |-> NoRel] /\ cmode = {}
+        /\ crel = [o \in W0.O |-> NoRel] /\ cmode = {} /\ netmoved = FALSE
 Horizon(o) == W.ob[o].t0..LastT(W.ob[o])
 Add(o) == /\ o \notin present /\ present' = present \cup {o} /\ rel' = [rel EXCEPT ![o] = NoRel]
           /\ crel' = [crel EXCEPT ![o] = NoRel] /\ cmode' = cmode \ {o}
-          /\ UNCHANGED <<regS, regD, failed, moved, gone>> /\ act' = <<"add", o>>
+          /\ UNCHANGED <<regS, regD, failed, moved, gone, netmoved>> /\ act' = <<"add", o>>
 At(r, t) == IF r # NoRel /\ t \in DOMAIN r THEN r[t] ELSE {}
 (* lanelets on which the library looks for registrations of o at t before it re-assigns or removes it *)
 Backed(o, t) == At(rel[o], t) \cup (IF DEV_ForgetsCentre THEN {} ELSE At(crel[o], t))
 Unreg(l) == IF DEV_ReassignKeepsOld THEN {} ELSE {o \in present : l \in Backed(o, W.ob[o].t0)}
 UnregD(l) == IF DEV_ReassignKeepsOld THEN {} ELSE {p \in (0..8) \X present : l \in Backed(p[2], p[1])}
+WI == IF DEV_NetMoveKeepsIndex THEN [W EXCEPT !.lan = Lan] ELSE W      \* the world as the spatial index sees it
 AssignAll ==
-    LET shp(o) == [t \in Horizon(o) |-> ExpShape(W, W.ob[o], t)]
-        cen(o) == [t \in Horizon(o) |-> ExpCenter(W, W.ob[o], t)]
-        regOf(o) == IF DEV_StaticRegistersCenter /\ W.ob[o].kind = "static" THEN ExpCenter(W, W.ob[o], W.ob[o].t0)
-                    ELSE ExpShape(W, W.ob[o], W.ob[o].t0)
+    LET shp(o) == [t \in Horizon(o) |-> ExpShape(WI, W.ob[o], t)]
+        cen(o) == [t \in Horizon(o) |-> ExpCenter(WI, W.ob[o], t)]
+        regOf(o) == IF DEV_StaticRegistersCenter /\ W.ob[o].kind = "static" THEN ExpCenter(WI, W.ob[o], W.ob[o].t0)
+                    ELSE ExpShape(WI, W.ob[o], W.ob[o].t0)
     IN /\ present # {}
        /\ rel' = [o \in W.O |-> IF o \in present THEN shp(o) ELSE rel[o]]
        /\ crel' = [o \in W.O |-> IF o \in present THEN cen(o) ELSE crel[o]] /\ cmode' = cmode \ present
@@ -59,8 +65,8 @@ AssignAll ==
        /\ regD' = [l \in W0.L |-> IF l \in gone THEN {} ELSE
                        (regD[l] \ UnregD(l))
                        \cup {<<t, o>> \in (0..8) \X present :
-                                W.ob[o].kind = "dynamic" /\ t \in Horizon(o) /\ l \in ExpShape(W, W.ob[o], t)}]
-       /\ UNCHANGED <<present, failed, moved, gone>> /\ act' = <<"assign", 0>>
+                                W.ob[o].kind = "dynamic" /\ t \in Horizon(o) /\ l \in ExpShape(WI, W.ob[o], t)}]
+       /\ UNCHANGED <<present, failed, moved, gone, netmoved>> /\ act' = <<"assign", 0>>
 (* assign_obstacles_to_lanelets(use_center_only=True): only the centre relation is recorded, registrations follow it *)
 AssignCenter ==
     LET cen(o) == [t \in Horizon(o) |-> ExpCenter(W, W.ob[o], t)]
@@ -72,7 +78,7 @@ AssignCenter ==
                        (regD[l] \ UnregD(l))
                        \cup {<<t, o>> \in (0..8) \X present :
                                 W.ob[o].kind = "dynamic" /\ t \in Horizon(o) /\ l \in ExpCenter(W, W.ob[o], t)}]
-       /\ UNCHANGED <<present, rel, failed, moved, gone>> /\ act' = <<"assign_center", 0>>
+       /\ UNCHANGED <<present, rel, failed, moved, gone, netmoved>> /\ act' = <<"assign_center", 0>>
 Remove(o) ==
     LET t0 == W.ob[o].t0
         ls == Backed(o, t0)
@@ -85,18 +91,21 @@ Remove(o) ==
                /\ failed' = (failed \/ (DEV_RemoveNeedsLanelets /\ recorded \cap gone # {}))
                /\ UNCHANGED regS
        /\ rel' = [rel EXCEPT ![o] = NoRel] /\ crel' = [crel EXCEPT ![o] = NoRel] /\ cmode' = cmode \ {o}
-       /\ UNCHANGED <<moved, gone>> /\ act' = <<"remove", o>>
+       /\ UNCHANGED <<moved, gone, netmoved>> /\ act' = <<"remove", o>>
 (* obstacle-level translate_rotate: poses change, recorded relations and registries stay (stale until re-assigned) *)
 Move(o) == /\ o \in present /\ o \in Movable /\ o \notin moved /\ moved' = moved \cup {o}
-           /\ UNCHANGED <<present, rel, regS, regD, failed, gone, crel, cmode>> /\ act' = <<"move", o>>
+           /\ UNCHANGED <<present, rel, regS, regD, failed, gone, crel, cmode, netmoved>> /\ act' = <<"move", o>>
+(* LaneletNetwork.translate_rotate: the lanelets move; recorded relations and registries are stale until re-assigned *)
+MoveNetwork == /\ ~netmoved /\ netmoved' = TRUE
+               /\ UNCHANGED <<present, rel, regS, regD, failed, moved, gone, crel, cmode>> /\ act' = <<"move_network", 0>>
 (* Scenario.remove_lanelet: the lanelet and its registries disappear; obstacles keep the id in their recorded relations *)
 RemoveLanelet(l) == /\ l \notin gone /\ gone' = gone \cup {l}
                     /\ regS' = [regS EXCEPT ![l] = {}] /\ regD' = [regD EXCEPT ![l] = {}]
-                    /\ UNCHANGED <<present, rel, failed, moved, crel, cmode>> /\ act' = <<"remove_lanelet", l>>
+                    /\ UNCHANGED <<present, rel, failed, moved, crel, cmode, netmoved>> /\ act' = <<"remove_lanelet", l>>
 Next == /\ steps < MaxSteps /\ steps' = steps + 1
         /\ \/ \E o \in W.O : Add(o) \/ Remove(o) \/ Move(o)
            \/ AssignAll \/ AssignCenter
-           \/ RemoveLanelet(2)
+           \/ RemoveLanelet(2) \/ MoveNetwork
 Spec == Init /\ [][Next]_vars
 
 (* after an assignment the recorded relations are the truth of the CURRENT world (moved obstacles, remaining lanelets) *)
@@ -108,6 +117,6 @@ InvInverseDynamic == \A l \in W.L : regD[l] = {<<t, o>> \in (0..8) \X present : 
 InvRemoveTotal == ~failed
 InvCentreVsShape == \A o \in W.O : \A t \in Horizon(o) : /\ ExpCenter(W, W.ob[o], t) \subseteq ExpShape(W, W.ob[o], t)
                                                               /\ MustShape(W, W.ob[o], t) \subseteq ExpShape(W, W.ob[o], t)
-StKey == [present |-> present, regS |-> regS, steps |-> steps, assigned |-> {o \in W.O : rel[o] # NoRel}, moved |-> moved, gone |-> gone, cmode |-> cmode]
+StKey == [present |-> present, regS |-> regS, steps |-> steps, assigned |-> {o \in W.O : rel[o] # NoRel}, moved |-> moved, gone |-> gone, cmode |-> cmode, netmoved |-> netmoved]
 Emit == PrintT(<<"EDGE", ToJson([from |-> StKey, act |-> act', to |-> StKey'])>>)
 ===================================================================================
